@@ -65,6 +65,9 @@ def whitelist():
         # ---- ws_decode.c (consumer: C09, Leaf/EquivWs.lean)
         Spec(S + "ws_decode.c", "hybiRemaining",
              table={"wsctx->header.payloadLen": "payloadLen", "wsctx->nReadPayload": "nReadPayload"}),
+        # ---- translate.c (consumer: C10, Leaf/EquivTranslate.lean): the guard that refuses client
+        # colour channels which do not fit the pixel (keeps every later `<< shift` defined)
+        Spec(S + "translate.c", "rfbChannelFitsPixel"),
     ]
     return wl
 
